@@ -24,6 +24,11 @@
 //	     tcp4:/tcp6: = the scope of the face is whatever the REAL unicast TCP transport, constructed
 //	     for that remote address by face.MakeUnicastTCPTransport (no socket is opened), says; in ls
 //	     mode that transport object is also the transport of the ingress link service
+//	dynface <slot> <L|N> <p2p|multi|adhoc> | dynclose <slot>  => ok
+//	     a face whose id is handed out by the REAL face table: a real link service is registered with
+//	     face.FaceTable.Add (dynclose: FaceTable.Remove); <slot> (a number >= 900) names it in later
+//	     ops and in the output - the harness translates slot <-> real id (newest slot of an id wins), so
+//	     an id handed out twice shows as packets for a closed face appearing on another one
 //	faces2 <K>                                               => ok | clash rounds=<n> accepted=<m>
 //	     K rounds: a Local and a NonLocal real link service (in-memory transports) are registered
 //	     CONCURRENTLY through the real face table (face.FaceTable.Add, goroutines released together).
@@ -128,32 +133,79 @@ var (
 	logInit  bool
 	hashSeen map[uint64]string // A-hash check: name hash -> name text
 	lsMode   bool
+	slotID   map[uint64]uint64 // slot (>= 900) -> id handed out by the real face table
+	idSlot   map[uint64]uint64 // real id -> newest slot
+	lsSeq    uint64            // NDNLPv2 sequence numbers of fragmented ingress
 	lsFaces  map[uint64]*face.NDNLPLinkService
 )
 
 // inject hands one packet to the real link service of face id (ls mode); false if there is none.
-func inject(id uint64, wire []byte, tok []byte, nh *uint64) bool {
+// realID translates a face number of the protocol into the id known to the forwarder.
+func realID(x uint64) uint64 {
+	if x >= 900 {
+		if id, ok := slotID[x]; ok {
+			return id
+		}
+		return x + 1000000 // a slot that was never opened: no such face
+	}
+	return x
+}
+
+// shownID is the inverse for the output.
+func shownID(id uint64) uint64 {
+	if s, ok := idSlot[id]; ok {
+		return s
+	}
+	return id
+}
+
+// encodeLp encodes one NDNLPv2 frame.
+func encodeLp(lp *spec.LpPacket) []byte {
+	pkt := &spec.Packet{LpPacket: lp}
+	e := spec.PacketEncoder{}
+	e.Init(pkt)
+	w := e.Encode(pkt)
+	if w == nil {
+		panic("harness: cannot encode LpPacket")
+	}
+	return w.Join()
+}
+
+func inject(id uint64, wire []byte, tok []byte, nh *uint64, pieces int) bool {
 	l, ok := lsFaces[id]
 	if !lsMode || !ok {
 		return false
 	}
-	frame := wire
-	if len(tok) > 0 || nh != nil {
-		lp := &spec.LpPacket{Fragment: enc.Wire{wire}}
+	hdr := func(lp *spec.LpPacket) {
 		if len(tok) > 0 {
 			lp.PitToken = append([]byte{}, tok...)
 		}
 		if nh != nil {
 			lp.NextHopFaceId = utils.IdPtr(*nh)
 		}
-		pkt := &spec.Packet{LpPacket: lp}
-		e := spec.PacketEncoder{}
-		e.Init(pkt)
-		w := e.Encode(pkt)
-		if w == nil {
-			panic("harness: cannot encode LpPacket")
+	}
+	if pieces > 1 && len(wire) >= pieces {
+		// the packet arrives split over several NDNLPv2 fragments and is reassembled by the real link service
+		base := lsSeq
+		lsSeq += uint64(pieces)
+		sz := (len(wire) + pieces - 1) / pieces
+		for k := 0; k < pieces; k++ {
+			lo, hi := k*sz, (k+1)*sz
+			if hi > len(wire) {
+				hi = len(wire)
+			}
+			lp := &spec.LpPacket{Fragment: enc.Wire{append([]byte{}, wire[lo:hi]...)},
+				Sequence: utils.IdPtr(base + uint64(k)), FragIndex: utils.IdPtr(uint64(k)), FragCount: utils.IdPtr(uint64(pieces))}
+			hdr(lp)
+			face.VerifHandleIncomingFrame(l, encodeLp(lp))
 		}
-		frame = w.Join()
+		return true
+	}
+	frame := wire
+	if len(tok) > 0 || nh != nil {
+		lp := &spec.LpPacket{Fragment: enc.Wire{wire}}
+		hdr(lp)
+		frame = encodeLp(lp)
 	}
 	face.VerifHandleIncomingFrame(l, frame)
 	return true
@@ -227,6 +279,11 @@ func newHistory(f []string) string {
 	labelVal = nil
 	lastTok = map[string]int{}
 	lastRef = map[string][]byte{}
+	for _, id := range slotID {
+		face.FaceTable.Remove(id)
+	}
+	slotID = map[uint64]uint64{}
+	idSlot = map[uint64]uint64{}
 	hashSeen = map[uint64]string{}
 	sends = nil
 	return "ok"
@@ -312,13 +369,13 @@ func render() string {
 				lastTok[common.NameText(p.Interest.NameV)] = l
 				lastRef[common.NameText(p.Interest.NameV)] = s.ref
 			}
-			out = append(out, fmt.Sprintf("I>%d %s h=%s t=%s", s.face, common.NameText(p.Interest.NameV), hop, tok))
+			out = append(out, fmt.Sprintf("I>%d %s h=%s t=%s", shownID(s.face), common.NameText(p.Interest.NameV), hop, tok))
 		} else if p.Data != nil {
 			c := 0
 			if b := p.Data.ContentV.Join(); len(b) > 0 {
 				c = int(b[0])
 			}
-			out = append(out, fmt.Sprintf("D>%d %s c=%d t=%s", s.face, common.NameText(p.Data.NameV), c, common.Hex(s.token)))
+			out = append(out, fmt.Sprintf("D>%d %s c=%d t=%s", shownID(s.face), common.NameText(p.Data.NameV), c, common.Hex(s.token)))
 		} else {
 			out = append(out, fmt.Sprintf("?>%d other", s.face))
 		}
@@ -332,7 +389,7 @@ func doInterest(f []string) string {
 	if th == nil {
 		return "skip"
 	}
-	faceID := common.Atou(f[1])
+	faceID := realID(common.Atou(f[1]))
 	name := common.ParseNameText(f[2])
 	checkHash(name)
 	cfg := &ndn.InterestConfig{CanBePrefix: b01(f[3]), MustBeFresh: b01(f[4])}
@@ -365,9 +422,14 @@ func doInterest(f []string) string {
 	}
 	var nh *uint64
 	if v, ok := optU(f[9]); ok {
-		nh = utils.IdPtr(v)
+		nh = utils.IdPtr(realID(v))
 	}
-	if !inject(faceID, wire, itok, nh) && len(threads) == 1 {
+	// an Interest carrying a HopLimit enters the link service in 2 (even) or 3 (odd) fragments
+	pieces := 1
+	if cfg.HopLimit != nil {
+		pieces = 2 + int(*cfg.HopLimit%2)
+	}
+	if !inject(faceID, wire, itok, nh, pieces) && len(threads) == 1 {
 		pkt := &defn.Pkt{Name: l3.Interest.NameV, L3: l3, Raw: wire, IncomingFaceID: utils.IdPtr(faceID), PitToken: itok, NextHopFaceID: nh}
 		th.QueueInterest(pkt)
 	}
@@ -379,7 +441,7 @@ func doData(f []string) string {
 	if th == nil {
 		return "skip"
 	}
-	faceID := common.Atou(f[1])
+	faceID := realID(common.Atou(f[1]))
 	name := common.ParseNameText(f[2])
 	checkHash(name)
 	cfg := &ndn.DataConfig{}
@@ -427,7 +489,11 @@ func doData(f []string) string {
 	if err != nil || l3.Data == nil {
 		return "err-parse"
 	}
-	if !inject(faceID, wire, tok, nil) && len(threads) == 1 {
+	pieces := 1
+	if content[0]%4 == 0 {
+		pieces = 2
+	}
+	if !inject(faceID, wire, tok, nil, pieces) && len(threads) == 1 {
 		pkt := &defn.Pkt{Name: l3.Data.NameV, L3: l3, Raw: wire, IncomingFaceID: utils.IdPtr(faceID), PitToken: tok}
 		th.QueueData(pkt)
 	}
@@ -688,11 +754,47 @@ func Exec(op string) string {
 	case "rmface":
 		dispatch.RemoveFace(common.Atou(f[1]))
 		return "ok"
+	case "dynface":
+		slot := common.Atou(f[1])
+		sc := defn.NonLocal
+		if f[2] == "L" {
+			sc = defn.Local
+		}
+		opts := face.MakeNDNLPLinkServiceOptions()
+		opts.IsConsumerControlledForwardingEnabled = true
+		l := face.MakeNDNLPLinkService(face.VerifNewTransport(8800, sc), opts)
+		face.FaceTable.Add(l) // the real face table hands out the id
+		id := l.FaceID()
+		ff := &fakeFace{id: id, scope: sc}
+		switch f[3] {
+		case "multi":
+			ff.link = defn.MultiAccess
+		case "adhoc":
+			ff.link = defn.AdHoc
+		default:
+			ff.link = defn.PointToPoint
+		}
+		dispatch.AddFace(id, ff) // outgoing packets are recorded by a fake face under that id
+		if old, ok := slotID[slot]; ok {
+			face.FaceTable.Remove(old)
+		}
+		slotID[slot] = id
+		idSlot[id] = slot
+		if lsMode {
+			lsFaces[id] = l
+		}
+		return "ok"
+	case "dynclose":
+		if id, ok := slotID[common.Atou(f[1])]; ok {
+			face.FaceTable.Remove(id) // also removes it from dispatch.FaceDispatch
+			delete(lsFaces, id)
+		}
+		return "ok"
 	case "fib":
-		table.FibStrategyTable.InsertNextHopEnc(common.ParseNameText(f[1]), common.Atou(f[2]), common.Atou(f[3]))
+		table.FibStrategyTable.InsertNextHopEnc(common.ParseNameText(f[1]), realID(common.Atou(f[2])), common.Atou(f[3]))
 		return "ok"
 	case "unfib":
-		table.FibStrategyTable.RemoveNextHopEnc(common.ParseNameText(f[1]), common.Atou(f[2]))
+		table.FibStrategyTable.RemoveNextHopEnc(common.ParseNameText(f[1]), realID(common.Atou(f[2])))
 		return "ok"
 	case "clrfib":
 		table.FibStrategyTable.ClearNextHopsEnc(common.ParseNameText(f[1]))
